@@ -107,3 +107,12 @@ let job_reg (job : Sx.t) : string =
     | Some bits -> "\"" ^ string_of_bits bits ^ "\"" | None -> "undef" in
   Printf.sprintf "(validate %s) (eval %s) (strict %s)" (fmt_rvalidate (Reg.reg_validate c))
     (fmt_eval (Reg.reg_eval c ins)) strict
+
+let job_regalloc (job : Sx.t) : string =
+  (* the model side does not evaluate: once the converted circuits are structurally equal,
+     theorem C10 gives equality of the two evaluations for every input *)
+  let c = parse_ssa job in
+  match RegAlloc.convert c with
+  | Util.Ok r ->
+    Printf.sprintf "(convert %s) (validate %s)" (fmt_reg r) (fmt_rvalidate (Reg.reg_validate r))
+  | _ -> "(convert crash)"
